@@ -1112,3 +1112,237 @@ Section Pinned.
     - intros T Hi. destruct (akeys_In _ _ Hi) as [w Hw]. destruct (B T fid w Hw) as [z [Hz [Hlz _]]]. congruence.
   Qed.
 End Pinned.
+
+(** * the recorded deviations: full clause refuted on the faithful model ([no_fixes]), the clause
+    holds outside the recorded event (taint), and holds outright once the repair is switched on *)
+
+(* --- F-07: to_sync/to_async reset the closed flag, so the counts drift from the open handles --- *)
+Definition counts_exact (f : fixes) : Prop :=
+  forall c a os, let s := state_after c a f os in
+  sc s = N.of_nat (cnt open_tx (hs s)) /\ rc s = N.of_nat (cnt open_rx (hs s)).
+
+Lemma counts_refuted_F07 : ~ counts_exact no_fixes.
+Proof.
+  intros H. specialize (H 2 false [Clone 0 2; Close 0; Convert 0 3; DropH 3]). vm_compute in H.
+  destruct H as [H _]. discriminate.
+Qed.
+
+Lemma counts_fixed f : fx07 f = true -> counts_exact f.
+Proof.
+  intros E c a os. cbv zeta. apply P_counts. destruct (P_taint_ok c a f os) as (_&_&_&T&_). auto.
+Qed.
+
+(* close()/drop never panic outside F-07 *)
+Lemma no_panic_close c a f os h x :
+  let s := state_after c a f os in
+  getH h s = Some x -> h_live x = true -> t07 (tn s) = false -> o_res (snd (step s (Close h))) <> RPanic.
+Proof.
+  cbv zeta. intros Hg Hl T E.
+  destruct (close_step_spec _ h (Inv_reachable c a f os) x Hg Hl) as [A B].
+  destruct (h_closed x) eqn:Hc.
+  - destruct (A eq_refl) as [A1 _]. congruence.
+  - destruct (B eq_refl) as [[B1|[_ B1]] _]; congruence.
+Qed.
+
+(* --- F-03: recv_timeout does not test the handle's own closed flag --- *)
+Definition rt_closed_rejects (f : fixes) : Prop :=
+  forall c a os h x, let s := state_after c a f os in
+  getH h s = Some x -> h_live x = true -> h_tx x = false -> h_async x = false -> h_closed x = true ->
+  o_res (snd (step s (RecvTimeout h))) = RDisc.
+
+Lemma rt_closed_refuted_F03 : ~ rt_closed_rejects no_fixes.
+Proof.
+  intros H. specialize (H 2 false [TrySend 0; Close 1] 1 (mkH false false true true)).
+  vm_compute in H. specialize (H eq_refl eq_refl eq_refl eq_refl eq_refl). discriminate.
+Qed.
+
+Lemma rt_closed_except_F03 c a f os h x :
+  let s := state_after c a f os in
+  getH h s = Some x -> h_live x = true -> h_tx x = false -> h_async x = false -> h_closed x = true ->
+  o_res (snd (step s (RecvTimeout h))) = RDisc \/ t03 (tn (fst (step s (RecvTimeout h)))) = true.
+Proof.
+  cbv zeta. intros Hg Hl Htx Ha Hc.
+  pose proof (recv_timeout_spec _ h (Inv_reachable c a f os) x Hg Hl Htx (fun _ => Ha)) as P.
+  destruct (o_res (snd (step (state_after c a f os) (RecvTimeout h)))); try contradiction; auto.
+  - destruct P as (_ & _ & _ & [P|(_ & _ & P)]); [congruence | right; exact P].
+  - destruct P as (P & _). discriminate.
+  - destruct P as (_ & _ & _ & _ & [P|(_ & P)]); [congruence | right; exact P].
+  - destruct P as (P & _). discriminate.
+Qed.
+
+Lemma rt_closed_fixed f : fx03 f = true -> rt_closed_rejects f.
+Proof.
+  intros E c a os h x. cbv zeta. intros Hg Hl Htx Ha Hc.
+  destruct (rt_closed_except_F03 c a f os h x Hg Hl Htx Ha Hc) as [P|P]; [exact P|].
+  pose proof (Inv_step _ (RecvTimeout h) (Inv_reachable c a f os)) as H'.
+  pose proof (w_taint _ (proj1 (proj2 H'))) as T.
+  destruct (cfg_step (state_after c a f os) (RecvTimeout h)) as (Ef & _). rewrite Ef, fx_after in T.
+  destruct T as (T & _). rewrite (T E) in P. discriminate.
+Qed.
+
+(* --- F-03f: a future's poll does not test the closed flag of the handle it borrows --- *)
+Definition poll_closed_rejects (f : fixes) : Prop :=
+  forall c a os fid w x, let s := state_after c a f os in
+  getF fid s = Some x -> f_live x = true -> f_done x = false -> handle_closed (f_h x) s = true ->
+  o_res (snd (step s (Poll fid w))) = (if f_recv x then RReadyDisc else RReadyClosed).
+
+Lemma poll_closed_refuted_F03f : ~ poll_closed_rejects no_fixes.
+Proof.
+  intros H. specialize (H 2 true [Close 0; MkSend 10 0] 10 100 (mkF false 0 (Some 0) Waiting false true false)).
+  vm_compute in H. specialize (H eq_refl eq_refl eq_refl eq_refl). discriminate.
+Qed.
+
+Lemma poll_closed_except_F03f c a f os fid w x :
+  let s := state_after c a f os in
+  getF fid s = Some x -> f_live x = true -> f_done x = false -> handle_closed (f_h x) s = true ->
+  o_res (snd (step s (Poll fid w))) = (if f_recv x then RReadyDisc else RReadyClosed)
+  \/ t03f (tn (fst (step s (Poll fid w)))) = true.
+Proof.
+  cbv zeta. intros Hg Hl Hd Hc. destruct (poll_closed_handle _ fid w x Hg Hl Hd Hc) as [A B].
+  destruct (fx03f (fx (state_after c a f os))); [left; apply A; reflexivity | right; apply B; reflexivity].
+Qed.
+
+Lemma poll_closed_fixed f : fx03f f = true -> poll_closed_rejects f.
+Proof.
+  intros E c a os fid w x. cbv zeta. intros Hg Hl Hd Hc.
+  destruct (poll_closed_handle _ fid w x Hg Hl Hd Hc) as [A _]. apply A. rewrite fx_after. exact E.
+Qed.
+
+(* --- F-33 (and F-07, F-03f): Disconnected is final --- *)
+Definition disc_is_final (f : fixes) : Prop :=
+  forall c a os o, let s := state_after c a f os in
+  sc s = 0 -> q s = [] ->
+  let s' := fst (step s o) in sc s' = 0 /\ q s' = [] /\ recvd s' = recvd s.
+
+Lemma disc_final_refuted_F33 : ~ disc_is_final no_fixes.
+Proof.
+  intros H. specialize (H 2 false [Close 0] (Clone 0 2)). vm_compute in H.
+  destruct (H eq_refl eq_refl) as [H1 _]. discriminate.
+Qed.
+
+Lemma disc_final_refuted_F03f : ~ disc_is_final no_fixes.
+Proof.
+  intros H. specialize (H 2 true [Close 0; MkSend 10 0] (Poll 10 100)). vm_compute in H.
+  destruct (H eq_refl eq_refl) as (_ & H1 & _). discriminate.
+Qed.
+
+Lemma disc_final_refuted_F07 : ~ disc_is_final no_fixes.
+Proof.
+  intros H. specialize (H 2 false [Close 0; Convert 0 2] (TrySend 2)). vm_compute in H.
+  destruct (H eq_refl eq_refl) as (_ & H1 & _). discriminate.
+Qed.
+
+Lemma disc_final_except c a f os o :
+  let s := state_after c a f os in
+  sc s = 0 -> q s = [] ->
+  let s' := fst (step s o) in
+  t07 (tn s') = false -> t33 (tn s') = false -> t03f (tn s') = false ->
+  sc s' = 0 /\ q s' = [] /\ recvd s' = recvd s.
+Proof. cbv zeta. apply disc_final. apply Inv_reachable. Qed.
+
+Lemma disc_final_fixed f : fx07 f = true -> fx33 f = true -> fx03f f = true -> disc_is_final f.
+Proof.
+  intros E1 E2 E3 c a os o. cbv zeta. intros Hsc Hq.
+  pose proof (Inv_step _ o (Inv_reachable c a f os)) as H'.
+  pose proof (w_taint _ (proj1 (proj2 H'))) as T.
+  destruct (cfg_step (state_after c a f os) o) as (Ef & _). rewrite Ef, fx_after in T.
+  destruct T as (_ & T3 & _ & T7 & _ & _ & T33).
+  apply disc_final_except; auto.
+Qed.
+
+(* --- F-08: a RecvFuture woken CLOSED reports Disconnected without re-draining --- *)
+Definition future_disc_drained (f : fixes) : Prop :=
+  forall c a os fid w x, let s := state_after c a f os in
+  getF fid s = Some x -> f_live x = true -> f_done x = false -> f_recv x = true ->
+  handle_closed (f_h x) s = false ->
+  o_res (snd (step s (Poll fid w))) = RReadyDisc -> q s = [].
+
+Lemma future_disc_refuted_F08 : ~ future_disc_drained no_fixes.
+Proof.
+  intros H.
+  specialize (H 2 true [Clone 1 2; MkRecv 10 1; MkRecv 11 2; Poll 10 100; Poll 11 101; TrySend 0; Close 0]
+                11 101 (mkF true 2 None WClosed true true false)).
+  vm_compute in H. specialize (H eq_refl eq_refl eq_refl eq_refl eq_refl eq_refl). discriminate.
+Qed.
+
+Lemma future_disc_except_F08 c a f os fid w x :
+  let s := state_after c a f os in
+  getF fid s = Some x -> f_live x = true -> f_done x = false -> f_recv x = true ->
+  handle_closed (f_h x) s = false ->
+  o_res (snd (step s (Poll fid w))) = RReadyDisc ->
+  q s = [] \/ (fx08 f = false /\ t08 (tn (fst (step s (Poll fid w)))) = true).
+Proof. cbv zeta. apply P_poll_disc. Qed.
+
+Lemma future_disc_fixed f : fx08 f = true -> future_disc_drained f.
+Proof.
+  intros E c a os fid w x. cbv zeta. intros Hg Hl Hd Hr Hc Ho.
+  destruct (P_poll_disc c a f os fid w x Hg Hl Hd Hr Hc Ho) as [P|[P _]]; [exact P | congruence].
+Qed.
+
+(* --- F-06: a registered RecvFuture that completes leaves its waiter entry queued --- *)
+Definition no_dangling_full (f : fixes) : Prop :=
+  forall c a os, let s := state_after c a f os in
+  forall fid w, In (fid, w) (arq s) ->
+  exists x, getF fid s = Some x /\ f_live x = true /\ f_done x = false /\ f_reg x = true.
+
+Lemma no_dangling_refuted_F06 : ~ no_dangling_full no_fixes.
+Proof.
+  intros H.
+  specialize (H 2 true [Clone 1 2; MkRecv 10 1; MkRecv 11 2; Poll 10 100; Poll 11 101; TrySend 0; Poll 11 101; DropF 11] 11 101).
+  vm_compute in H. destruct (H (or_introl eq_refl)) as [x [Hx [Hl _]]].
+  inversion Hx; subst x. discriminate.
+Qed.
+
+(* ... and the next send then writes into the dropped future's cell *)
+Lemma bad_write_witness_F06 :
+  o_bad (snd (step (state_after 2 true no_fixes
+                      [Clone 1 2; MkRecv 10 1; MkRecv 11 2; Poll 10 100; Poll 11 101; TrySend 0; Poll 11 101; DropF 11])
+                   (TrySend 0))) = true.
+Proof. vm_compute. reflexivity. Qed.
+
+Lemma no_dangling_except c a f os : no_dangling (state_after c a f os).
+Proof. apply Inv_no_dangling, Inv_reachable. Qed.
+
+Lemma no_dangling_fixed f : fx06 f = true -> no_dangling_full f.
+Proof.
+  intros E c a os. cbv zeta. destruct (no_dangling_except c a f os) as [_ B].
+  apply B. destruct (P_taint_ok c a f os) as (_&_&T&_). auto.
+Qed.
+
+(* --- F-12 (and F-06): wake accounting --- *)
+Definition wake_full (f : fixes) : Prop :=
+  forall c a os, let s := state_after c a f os in
+  ((0 < cnt pw_r (fs s))%nat -> q s <> [] -> (0 < cnt pi_r (fs s))%nat) /\
+  ((0 < cnt pw_s (fs s))%nat -> (length (q s) < N.to_nat (cap s))%nat -> (0 < cnt pi_s (fs s))%nat).
+
+Lemma wake_refuted_F12 : ~ wake_full no_fixes.
+Proof.
+  intros H.
+  specialize (H 1 true [TrySend 0; Clone 0 2; MkSend 10 0; MkSend 11 2; Poll 10 100; Poll 11 101; TryRecv 1; DropF 10]).
+  vm_compute in H. destruct H as [_ H]. specialize (H (le_n 1) (le_n 1)). inversion H.
+Qed.
+
+Lemma wake_refuted_F06 : ~ wake_full no_fixes.
+Proof.
+  intros H.
+  specialize (H 2 true [Clone 1 2; MkRecv 10 1; MkRecv 11 2; MkRecv 12 2; Poll 10 100; Poll 11 101; Poll 12 102;
+                        TrySend 0; Poll 11 101; Poll 10 100; TrySend 0]).
+  vm_compute in H. destruct H as [H _]. assert (Hq : [1] <> @nil N) by discriminate.
+  specialize (H (le_S _ _ (le_n 1)) Hq). inversion H.
+Qed.
+
+Lemma wake_except c a f os : wake_ok (state_after c a f os).
+Proof. apply Inv_wake_ok, Inv_reachable. Qed.
+
+Lemma wake_fixed f : fx06 f = true -> fx12 f = true -> wake_full f.
+Proof.
+  intros E1 E2 c a os. cbv zeta. destruct (wake_except c a f os) as (A & B & _).
+  destruct (P_taint_ok c a f os) as (_&_&T6&_&_&T12&_). split; [apply A | apply B]; auto.
+Qed.
+
+(* with every repair on, nothing is tainted in any history *)
+Lemma all_fixed_clean c a os :
+  let s := state_after c a all_fixes os in
+  t03 (tn s) = false /\ t03f (tn s) = false /\ t06 (tn s) = false /\ t07 (tn s) = false /\
+  t08 (tn s) = false /\ t12 (tn s) = false /\ t33 (tn s) = false.
+Proof. cbv zeta. apply all_fixed_no_taint; [apply Inv_reachable | apply fx_after]. Qed.
